@@ -1052,6 +1052,7 @@ func c01Tune(g *gen) {
 
 func init() {
 	runners["C01"] = func(c *ctx) {
+		c.stateProj = "sp_balances" // the part of the state this property's theorems speak about
 		u := newUniverse()
 		proj := tkProj(true, true)
 		c.rep.Rule = "(1) scenario families on fresh 2-shard worlds: {fungible, SFT, NFT} x {ESDTTransfer/ESDTNFTTransfer, multi with 1, 2, 3 tokens incl. a repeated token} x {destination already holds the token / holds nothing} x {none, frozen, paused, not payable, oracle error, other NFT with the same key} x {same shard, cross shard}: transfer, delivery, and after a rejected delivery the return-after-error refund (sender's balances must be back); the same transfers (ESDTTransfer, ESDTNFTTransfer, multi fungible-only / NFT-only / mixed, partial and whole balance) with the blocking condition installed AFTER the successful sender-side execution (token paused on the destination shard or on both shards, destination frozen, sender frozen too): delivery refused, refund must succeed despite pause / freeze on the sender side and restore the sender; three in-flight messages delivered in all 6 orders; aliasing identifiers (F4b world: holder of ABC-123456 nonce 0x44 names ABC-12345 nonce 0x3644), repaired F4a shape, unknown / empty ids. " +
